@@ -250,6 +250,24 @@ impl Memory {
     /// location.
     ///
     /// This functionality exists primarily for introspection.
+    /// Gets the generations of values written at each constant offset (verification hook:
+    /// the public [`Self::generations`] only looks at symbolic offsets).
+    #[cfg(smlxl_storage_layout_extractor_verif)]
+    #[must_use]
+    pub fn verif_constant_generations(&self) -> Vec<(usize, Vec<(RuntimeBoxedVal, MemStoreSize)>)> {
+        self.constant_offsets
+            .iter()
+            .map(|(k, v)| (*k, v.iter().map(|s| (s.data.clone(), s.size)).collect()))
+            .collect()
+    }
+
+    /// Gets the store sizes of the generations at a symbolic offset (verification hook).
+    #[cfg(smlxl_storage_layout_extractor_verif)]
+    #[must_use]
+    pub fn verif_symbolic_sizes(&self, offset: &RuntimeBoxedVal) -> Option<Vec<MemStoreSize>> {
+        self.symbolic_offsets.get(offset).map(|g| g.iter().map(|s| s.size).collect())
+    }
+
     #[must_use]
     pub fn query_store_size(&self, offset: &RuntimeBoxedVal) -> Option<MemStoreSize> {
         self.symbolic_offsets
@@ -282,6 +300,22 @@ impl Memory {
     /// Consumes the memory and returns all values that are registered in it.
     #[must_use]
     pub fn all_values(self) -> Vec<RuntimeBoxedVal> {
+        #[cfg(smlxl_storage_layout_extractor_verif)]
+        {
+            // Same traversal with the two maps' iteration orders made explicit
+            let mut values = Vec::new();
+            let constant: Vec<_> = self.constant_offsets.into_iter().collect();
+            for (_, more) in crate::verif_hooks::permute("memory.constant_offsets", constant) {
+                values.extend(more.into_iter().map(|s| s.data));
+            }
+            let symbolic: Vec<_> = self.symbolic_offsets.into_iter().collect();
+            for (key, more) in crate::verif_hooks::permute("memory.symbolic_offsets", symbolic) {
+                values.push(key);
+                values.extend(more.into_iter().map(|s| s.data));
+            }
+            return values;
+        }
+        #[allow(unreachable_code)]
         let mut values = Vec::new();
         self.constant_offsets
             .into_values()
